@@ -1,5 +1,5 @@
 ---------------------------- MODULE prog_nested ----------------------------
-(* C18 lens: a Tuple inside a Tuple (accepted by compile_funsor; outside the lowering model's fragment) *)
+(* C18 lens: a Tuple inside a Tuple (lowered correctly by the model; compile_funsor mis-numbers the values after a Tuple: known finding) *)
 EXTENDS OpProgram
 L_Leaves == <<
   V("x", RealD), V("y", Dom(0, <<2>>)) >>
